@@ -13,9 +13,9 @@ natively by CPython, so the proof is parametric in the class):
      * raises e       =>  e is the very exception object raised by the LAST invocation of f;
                           isinstance(e, exc_type) => #invocations == attempts (exhausted);
                           otherwise it propagated at once
-     * falling out of the loop (which would return None) is unreachable
-Loop invariant (loop 0, ``for attempt_index in range(attempts)``):
-     calls == attempt_index  and  0 <= attempt_index <= attempts - 1
+     * returning without a successful invocation (falling out of the loop would return None) is unreachable
+Loop invariant (the loop around the attempts, found by what it iterates):  calls == index - start, plus index <= stop - 1 when the
+loop makes all the attempts (then its normal exit is infeasible); a loop that makes all but the last attempt is accepted too.
 """
 import functools
 
@@ -32,18 +32,51 @@ class _Ghost:
 
 
 class _AttemptsLoop(RangeLoop):
-    exit_unreachable = True  # falling out of the loop would make wrapper return None
+    """``for <index> in range(start, stop)`` around the attempts.  Invariant:  calls == index - start  and no attempt so far succeeded;
+    when the loop is meant to make ALL attempts (stop - start == attempts: the last one re-raises inside the loop) additionally
+    index <= stop - 1, which makes the normal loop exit infeasible (falling out would return None);  when it makes all but the last
+    (stop - start == attempts - 1: the final attempt follows the loop) the exit is reachable with calls == attempts - 1.
+    Any other trip count is not a shape this contract describes: undecided."""
 
     def __init__(self, g, attempts):
         super().__init__()
         self.g, self.attempts = g, attempts
+        self.all_attempts = None
+
+    def _classify(self, ctx, it):
+        from ujvc.vc import _i
+
+        start, stop = _i(it.start), _i(it.stop)
+        self.start, self.stop = start, stop
+
+        def valid(f):
+            s = z3.Solver()
+            s.set("timeout", 2000)
+            for a in ctx.pc:
+                s.add(a)
+            s.add(z3.Not(f))
+            return s.check() == z3.unsat
+
+        if valid(stop - start == self.attempts):
+            # two candidate invariants (disjunctive proof attempt, ujvc/units.py): the loop exit is infeasible because the last attempt
+            # re-raises inside the loop (index <= stop - 1), or it is reachable with every attempt made and swallowed
+            self.all_attempts = ctx.choose(2, "alt:retry-loop-invariant") == 0
+        elif valid(stop - start == self.attempts - 1):
+            self.all_attempts = False
+        else:
+            raise Unsupported("the retry loop makes neither all attempts nor all but the last one")
+
+    def establish(self, ctx, it, locs):
+        self._classify(ctx, it)
+        RangeLoop.establish(self, ctx, it, locs)
 
     def havoc_state(self, ctx):
         self.g.calls = ctx.fresh(IntS, "calls")
         self.g.last = None
 
     def inv(self, ctx, i):
-        return z3.And(self.g.calls == i, i >= 0, i <= self.attempts - 1)
+        base = z3.And(self.g.calls == i - self.start, i >= self.start)
+        return z3.And(base, i <= self.stop - 1) if self.all_attempts else base
 
 
 @unit(
@@ -88,7 +121,9 @@ def retry_unit(ctx):
         g.last = ("raise", e)
         raise e
 
-    vc = VC(ctx, loops={"attempts": _AttemptsLoop(g, n)})
+    loop = _AttemptsLoop(g, n)
+    vc = VC(ctx, loops={})
+    vc.resolve_loop = lambda key, it: loop if hasattr(it, "start") and hasattr(it, "stop") else None
     env = {
         "wraps": functools.wraps,
         "assert_is_instance": lambda *a, **k: None,
@@ -96,7 +131,7 @@ def retry_unit(ctx):
         "range": vc.range,
     }
     get(REL, "identity").compile_into(env)
-    create_retry = get(REL, "create_retry", cut_loops={0: "attempts"}, keep_nonlocal=True).compile_into(env)
+    create_retry = get(REL, "create_retry", cut_loops="auto", keep_nonlocal=True).compile_into(env)
 
     try:
         retry = create_retry(attempts, ET)
